@@ -79,7 +79,7 @@ def translate(ctx):
 
 
 # ------------------------------------------------------------------------------------------------------------ cases
-def table_cases() -> List[Tuple[str, str, Dict[str, Any]]]:
+def table_cases(thorough: bool = True) -> List[Tuple[str, str, Dict[str, Any]]]:
     out = []
     for level in ("jet", "evt"):
         variants = (0, 2) if level == "jet" else (0,)
@@ -92,7 +92,8 @@ def table_cases() -> List[Tuple[str, str, Dict[str, Any]]]:
                     for op in X.BIN_OPS:
                         out.append(("binop", level, X.form_plain(X.binop(op, a, b))))
                     for op in X.CMP_OPS:
-                        out.append(("compare", level, X.form_plain(X.cmpop(op, a, b))))
+                        if v == 0 or thorough:  # the second operand spelling of the comparisons only in the thorough tier
+                            out.append(("compare", level, X.form_plain(X.cmpop(op, a, b))))
                     if v == 0:
                         t = X.cmpop("Gt", X.leaf(level, "d"), X.int_lit(1))
                         out.append(("cond", level, X.form_cond(t, a, b)))
@@ -370,7 +371,7 @@ def run(ctx):
     import vlib
 
     cases = [("corpus", c["level"], c["form"]) for c in vlib.corpus_cases(ID)]
-    cases += table_cases()
+    cases += table_cases(ctx.tier == "thorough")
     nrand = QUICK_RANDOM if ctx.tier == "quick" else THOROUGH_RANDOM
     cases += [c for c in random_cases(ctx.rng, nrand * 2) if pow_safe(c[2]) and f32_safe(c[2])][:nrand]
     results = [r for r in evaluate_cases(ctx, cases) if not (("frontend" in r["impl"]) and not ctx.count("skipped:func_adl-front-end-refusal"))]
